@@ -18,6 +18,7 @@ func init() {
 			"D2 the pass-through decision of every merge<T> (ten generated variants) looks at every block: tombstones and partial reads are tested for the first block and for every later block, and overlap with the predecessor is tested for every later block, so a block is copied verbatim only if none of these holds for any block; " +
 			"D3 recycled block records are completely re-initialised: wherever a *block may come from the reuse buffer, every field of the struct is assigned unconditionally before use, and the tombstones stored with a block are read from the TSM reader of the iterator that produced the block; " +
 			"D4 outputs are installed only as complete files: Compactor.writeNewFiles returns file names only after write() returned nil and removes its temporary outputs otherwise (shared with C01). " +
+			"D5 the reservation of the input files (Compactor.add) is released on every exit of CompactFull/CompactFast once it was taken; D6 an abort is honoured between blocks: in Compactor.write every block read is preceded, since the iterator advanced, by a look at the enabled flags, and the function can return errCompactionAborted; D7 the only files compactGroup removes are elements of the slice returned by CompactFast/CompactFull (its own outputs). " +
 			"NOT decided: value-level merge arithmetic (newest wins, Exclude ranges), block size/count limits, sortedness of output blocks.",
 		RuleText:    "obligation = (rule, function, site); path exploration with outcome facts; attribute-set comparison between the first-block test and the per-block loop; struct-field coverage of re-initialisation; definition provenance",
 		Assumptions: commonAssumptions,
@@ -320,6 +321,177 @@ func runC09(c *core.Ctx) {
 			c.Check("files-returned-only-after-complete-write", fmt.Sprintf("%s/return#%d", f.Name, k), c.P.Pos(e.Pos()), bad[e] == "", bad[e])
 		}
 		c.Floor("returns of file names from writeNewFiles", k, 1)
+	})
+
+	c.Clause("D5", func() {
+		// the reservation of the input files is released on every exit after it was taken
+		n := 0
+		for _, name := range []string{tsm1 + ".(*Compactor).CompactFull", tsm1 + ".(*Compactor).CompactFast"} {
+			f := c.Fn(name)
+			isAdd := calleeIn(f, tsm1+".(*Compactor).add")
+			isRemove := calleeIn(f, tsm1+".(*Compactor).remove")
+			adds := findOrAbort(c, f, "Compactor.add", evCall(isAdd), 1)
+			addArg := core.ExprStr(adds[0].Call.Args[0])
+			bad := ""
+			complete := f.Flow().ExplorePathsMarked(func(k core.VarKey, fct core.Fact) bool {
+				return k.Root == nil && strings.HasPrefix(k.Path, "cond:") && fct.Def != nil && strings.Contains(core.ExprStr(fct.Def), ".add(")
+			}, func(e *core.Event) string {
+				if e.Kind == core.EvDefer && isRemove(e.Call) && len(e.Call.Args) == 1 && core.ExprStr(e.Call.Args[0]) == addArg {
+					return "release-registered"
+				}
+				if e.Kind == core.EvCall && isRemove(e.Call) && len(e.Call.Args) == 1 && core.ExprStr(e.Call.Args[0]) == addArg {
+					return "release-registered"
+				}
+				return ""
+			}, func(e *core.Event, st core.State) {
+				if e.Kind != core.EvReturn || bad != "" {
+					return
+				}
+				// reserved on this path: the test `!c.add(files)` was evaluated false
+				reserved := false
+				for k, fct := range st {
+					if k.Root != nil || !strings.HasPrefix(k.Path, "cond:") || fct.Def == nil || fct.Bool == 0 {
+						continue
+					}
+					var atoms []atomB
+					decompose(fct.Def, fct.Bool == 1, &atoms)
+					for _, a := range atoms {
+						if ce, ok := ast.Unparen(a.x).(*ast.CallExpr); ok && isAdd(ce) && a.val {
+							reserved = true
+						}
+					}
+				}
+				if reserved && !core.Marked(st, "release-registered") {
+					bad = "a return is reachable after the input files were reserved (Compactor.add returned true) without their release being registered: the files can never be compacted again until restart @" + c.P.Pos(e.Pos())
+				}
+			})
+			c.Need(complete, "exploration bound "+f.Name)
+			n++
+			c.Check("reservation-released-on-every-exit", f.Name, f.PosStr(), bad == "", bad)
+		}
+		c.Floor("compaction entry points with a reservation", n, 2)
+	})
+
+	c.Clause("D6", func() {
+		// an abort is honoured between blocks: every block read of Compactor.write is preceded, since the iterator advanced, by a look at the enabled flags
+		f := c.Fn(tsm1 + ".(*Compactor).write")
+		info := f.Info()
+		ce := c.P.LookupField(tsm1, "Compactor", "compactionsEnabled")
+		se := c.P.LookupField(tsm1, "Compactor", "snapshotsEnabled")
+		c.Need(ce != nil && se != nil, "Compactor.compactionsEnabled / snapshotsEnabled")
+		readsFlag := func(e *core.Event) bool {
+			if e.Node == nil {
+				return false
+			}
+			found := false
+			ast.Inspect(e.Node, func(nd ast.Node) bool {
+				if s, ok := nd.(*ast.SelectorExpr); ok && (info.Uses[s.Sel] == ce || info.Uses[s.Sel] == se) {
+					found = true
+				}
+				return !found
+			})
+			return found
+		}
+		nexts := findOrAbort(c, f, "iter.Next", func(e *core.Event) bool { return methodCall(e, "Next") }, 1)
+		reads := findOrAbort(c, f, "iter.Read", func(e *core.Event) bool { return methodCall(e, "Read") }, 1)
+		for i, nx := range nexts {
+			p := f.Flow().PathAvoiding(nx, func(e *core.Event) bool {
+				for _, r := range reads {
+					if e == r {
+						return true
+					}
+				}
+				return false
+			}, readsFlag)
+			detail := ""
+			if p != nil {
+				detail = "a block is read and written without looking at the enabled flags since the iterator advanced: disabling compactions (as a delete or a close does) is not honoured until the whole file is written: " + core.PathStr(p)
+			}
+			c.Check("abort-checked-every-block", fmt.Sprintf("%s/iteration#%d", f.Name, i+1), c.P.Pos(nx.Pos()), p == nil, detail)
+		}
+		// the look leads to an abort: some return under `!enabled` carries a non-nil error
+		aborts := 0
+		for _, e := range f.Graph().Events {
+			if e.Kind != core.EvReturn {
+				continue
+			}
+			if rs, ok := e.Node.(*ast.ReturnStmt); ok && len(rs.Results) == 1 && strings.Contains(core.ExprStr(rs.Results[0]), "errCompactionAborted") {
+				aborts++
+			}
+		}
+		c.Check("abort-checked-every-block", f.Name+"/abort-return", f.PosStr(), aborts >= 1, "Compactor.write has no return of errCompactionAborted")
+	})
+
+	c.Clause("D7", func() {
+		// what compactGroup deletes after a failed install are the compaction's outputs
+		f := c.Fn(tsm1 + ".(*compactionStrategy).compactGroup")
+		info := f.Info()
+		filesObj := localOrParam(f, "files")
+		c.Need(filesObj != nil, "compactGroup: variable files")
+		// files is assigned only from CompactFast/CompactFull
+		isCompact := calleeIn(f, tsm1+".(*Compactor).CompactFast", tsm1+".(*Compactor).CompactFull")
+		okDefs := true
+		ast.Inspect(f.Body, func(nd ast.Node) bool {
+			as, ok := nd.(*ast.AssignStmt)
+			if !ok {
+				return true
+			}
+			for _, l := range as.Lhs {
+				if id, ok := l.(*ast.Ident); ok && info.ObjectOf(id) == filesObj {
+					ce, isCall := as.Rhs[0].(*ast.CallExpr)
+					if !isCall || !isCompact(ce) {
+						okDefs = false
+					}
+				}
+			}
+			return true
+		})
+		c.Check("removed-files-are-outputs", f.Name+"/files-defined-by-compaction", f.PosStr(), okDefs, "the variable holding the new files is assigned from something other than CompactFast/CompactFull")
+		k := 0
+		ast.Inspect(f.Body, func(nd ast.Node) bool {
+			rs, ok := nd.(*ast.RangeStmt)
+			if !ok {
+				return true
+			}
+			var val types.Object
+			if id, ok := rs.Value.(*ast.Ident); ok {
+				val = info.ObjectOf(id)
+			}
+			ast.Inspect(rs.Body, func(x ast.Node) bool {
+				ce, ok := x.(*ast.CallExpr)
+				if !ok {
+					return true
+				}
+				fn, ok := core.Callee(info, ce).(*types.Func)
+				if !ok || fn.Pkg() == nil || fn.Pkg().Path() != "os" || fn.Name() != "Remove" && fn.Name() != "RemoveAll" {
+					return true
+				}
+				k++
+				overFiles := false
+				if id, ok := ast.Unparen(rs.X).(*ast.Ident); ok && info.ObjectOf(id) == filesObj {
+					overFiles = true
+				}
+				argIsVal := false
+				if id, ok := ast.Unparen(ce.Args[0]).(*ast.Ident); ok && val != nil && info.ObjectOf(id) == val {
+					argIsVal = true
+				}
+				c.Check("removed-files-are-outputs", fmt.Sprintf("%s/os.%s#%d", f.Name, fn.Name(), k), c.P.Pos(ce.Pos()), overFiles && argIsVal,
+					"compactGroup removes a file that is not one of the compaction's own outputs: removing an input file destroys data that exists nowhere else")
+				return true
+			})
+			return true
+		})
+		// removals outside a range over files are not allowed at all
+		total := 0
+		for _, e := range f.Graph().Events {
+			if e.Kind == core.EvCall {
+				if fn, ok := e.Callee.(*types.Func); ok && fn.Pkg() != nil && fn.Pkg().Path() == "os" && (fn.Name() == "Remove" || fn.Name() == "RemoveAll") {
+					total++
+				}
+			}
+		}
+		c.Check("removed-files-are-outputs", f.Name+"/all-removals-inside-range-over-outputs", f.PosStr(), total == k, fmt.Sprintf("%d os.Remove calls, %d of them inside a range over the outputs", total, k))
+		c.Floor("removals in compactGroup", k, 1)
 	})
 }
 
